@@ -234,3 +234,26 @@ pub(crate) fn call<T>(ev: &str, ids: String, f: impl FnOnce() -> T, res: impl Fn
         }
     }
 }
+
+// ---------------------------------------------------------------------------
+// Cut-off notes: the two places where the engine deliberately abandons part of
+// the search (ForceProgressIterator giving up after repeated zero-length
+// results; a repeat not offering zero iterations because it was seen at the
+// same position before) leave a note, so that a checker can tell a result
+// produced under such a cut-off from any other result.
+// ---------------------------------------------------------------------------
+
+thread_local! {
+    static CUTOFFS: Cell<u32> = const { Cell::new(0) };
+}
+
+pub(crate) fn note_cutoff(which: &str) {
+    let bit = if which == "force_progress" { 1 } else { 2 };
+    CUTOFFS.with(|c| c.set(c.get() | bit));
+}
+
+/// Returns and clears the cut-off notes of the current thread
+/// (bit 0: force progress, bit 1: zero-length history).
+pub fn take_cutoffs() -> u32 {
+    CUTOFFS.with(|c| c.replace(0))
+}
